@@ -26,9 +26,9 @@ SERVICE_BTC_RND = "users=4,init=60,initbtc=30,taxnum=1,taxden=4,slashnum=1,slash
 SERVICE_MULTI_CFG = "users=3,init=50,taxnum=1,taxden=2,slashnum=0,slashden=1,maxtimeout=2,minmult=1,mindep=2,wait=2"
 
 SERVICE_RND = T(
-    [dict(n=6, len=30, procs=5, cfg="users=4,init=40,taxnum=1,taxden=4,slashnum=1,slashden=2"),
-     dict(n=6, len=30, procs=5, cfg="users=5,init=100,taxnum=1,taxden=10,slashnum=1,slashden=10,maxtimeout=4,minmult=2,mindep=3,maxctx=6"),
-     dict(n=6, len=25, procs=4, cfg="users=3,init=25,taxnum=1,taxden=2,slashnum=1,slashden=1,minmult=1,mindep=0,wait=3")],
+    [dict(n=4, len=30, procs=5, cfg="users=4,init=40,taxnum=1,taxden=4,slashnum=1,slashden=2"),
+     dict(n=4, len=30, procs=5, cfg="users=5,init=100,taxnum=1,taxden=10,slashnum=1,slashden=10,maxtimeout=4,minmult=2,mindep=3,maxctx=6"),
+     dict(n=4, len=25, procs=4, cfg="users=3,init=25,taxnum=1,taxden=2,slashnum=1,slashden=1,minmult=1,mindep=0,wait=3")],
     [dict(n=40, len=40, procs=7, cfg="users=4,init=40,taxnum=1,taxden=4,slashnum=1,slashden=2"),
      dict(n=40, len=40, procs=7, cfg="users=5,init=100,taxnum=1,taxden=10,slashnum=1,slashden=10,maxtimeout=4,minmult=2,mindep=3,maxctx=6"),
      dict(n=40, len=30, procs=6, cfg="users=3,init=25,taxnum=1,taxden=2,slashnum=1,slashden=1,minmult=1,mindep=0,wait=3")])
@@ -37,8 +37,16 @@ bundled(SERVICE_RND)
 # two fee denoms, exchange rate, module-service calls, owner-wide withdrawals
 SERVICE_RND["quick"].append(dict(n=5, len=30, procs=3, cfg=SERVICE_BTC_RND))
 SERVICE_RND["thorough"].append(dict(n=30, len=40, procs=6, cfg=SERVICE_BTC_RND))
-SERVICE_GEN = T([dict(cfg="GEN_Service.cfg", num=8, depth=20, seeds=6)],
-                [dict(cfg="GEN_Service.cfg", num=50, depth=26, seeds=14)])
+# GEN_Service_probe (round 7): the kind of every event is drawn first (block ends, rate changes, answers, consumer and
+# provider commands each get their share, so behaviours are deep), the prefix is accepted events only and the last
+# four events are operations the specification REJECTS (every message type x every object that ever existed, removed
+# ones included, x every role x ids spelt differently / of the wrong length x coins of the wrong denom); two-denom
+# universe with a settable exchange rate.  The harness then runs its epilogue from the real state.
+SERVICE_PROBE_CFG = "users=4,init=30,initbtc=6,raten=2,rated=1,taxnum=1,taxden=2,slashnum=1,slashden=2,maxtimeout=3,minmult=1,mindep=2,wait=2"
+SERVICE_GEN = T([dict(cfg="GEN_Service.cfg", num=7, depth=20, seeds=3),
+                 dict(cfg="GEN_Service_probe.cfg", num=5, depth=28, seeds=4, driver_cfg=SERVICE_PROBE_CFG)],
+                [dict(cfg="GEN_Service.cfg", num=50, depth=26, seeds=14),
+                 dict(cfg="GEN_Service_probe.cfg", num=30, depth=32, seeds=12, driver_cfg=SERVICE_PROBE_CFG, timeout=3000)])
 SERVICE_SCN = [dict(file="scenarios/service_cover.ndjson", cfg=SERVICE_SCN_CFG),   # every required antecedent
                dict(file="scenarios/service_F4.ndjson", cfg=SERVICE_SCN_CFG),
                dict(file="scenarios/service_F21.ndjson", cfg=SERVICE_SCN_CFG),
@@ -49,6 +57,15 @@ SERVICE_SCN = [dict(file="scenarios/service_cover.ndjson", cfg=SERVICE_SCN_CFG),
                # UpdateRequestContext field by field, non-base-denom prices, module-service calls
                dict(file="scenarios/service_ext.ndjson", cfg=SERVICE_EXT_CFG),
                dict(file="scenarios/service_modsvc.ndjson", cfg=SERVICE_BTC_CFG)]
+# round 7: the swallowed errors / early exits of the end-blocker and objects in unusual life-cycle states, on every run:
+# a request priced in the second denom expires after the exchange rate was taken away (Slash cannot compute the
+# minimum deposit), requests expire on a disabled and on a refunded binding, pause / start / kill with a request in
+# flight, commands on killed and on removed contexts, answers to cleaned requests, provider commands in the wrong
+# binding state and by the wrong owner, ids in lower case / of the wrong length, deposits and fee caps of the wrong denom
+SERVICE_SCN.append(dict(file="scenarios/service_probe.ndjson", cfg=SERVICE_BTC_CFG))
+# two creations in ONE transaction (same tx hash, creation index 0 and 1), two answers in one transaction, a
+# two-call transaction whose second call fails (both rolled back: TxFailed), three creations in one transaction
+SERVICE_SCN.append(dict(file="scenarios/service_bundle.ndjson", cfg=SERVICE_SCN_CFG + ",bundle=100"))
 # regression: owner tally in two denoms (finding F35, fixed by a72912e)
 SERVICE_SCN.append(dict(file="scenarios/service_F35.ndjson", cfg=SERVICE_BTC_CFG))
 SERVICE_PENDING = [dict(file="scenarios/service_F36.ndjson", cfg=SERVICE_BTC_CFG)]
@@ -83,13 +100,21 @@ PROPS = {
     "C07": ModuleCheck("service", "Service.tla", "ServiceTrace.tla", "ServiceTrace.cfg", SERVICE_CLAUSES_C07,
                        SERVICE_MC, SERVICE_GEN, SERVICE_RND, scenarios=SERVICE_SCN,
                        required=["bind_ok", "charge", "discount", "respond_ok", "tax", "expire", "slash",
-                                 "withdraw_ok", "refund_ok", "enable_ok", "funds_pause"],
+                                 "withdraw_ok", "refund_ok", "enable_ok", "funds_pause",
+                                 # round 7 (scenarios/service_probe.ndjson exercises each of them on every run)
+                                 "slash_norate", "expire_unavailable", "expire_refunded", "rate_gone_inflight",
+                                 "rate_changed_inflight", "wrong_denom", "refund_again", "refund_early",
+                                 "enable_available", "disable_disabled", "update_disabled_deposit", "binding_nonowner",
+                                 "bind_existing", "withdraw_nonowner", "setwithdraw_module"],
                        gen_cfg=SERVICE_GEN_CFG, assumptions=_ASSUME),
     "C08": ModuleCheck("service", "Service.tla", "ServiceTrace.tla", "ServiceTrace.cfg", SERVICE_CLAUSES_C08,
                        SERVICE_MC, SERVICE_GEN, SERVICE_RND, scenarios=SERVICE_SCN,
                        required=["respond_ok", "respond_wrong_provider", "respond_not_active", "expire",
                                  "oneshot_removed", "batch_repeat", "total_reached", "pause_ok", "start_ok", "kill_ok",
-                                 "update_ok", "unauthorized", "callback_ok", "callback_err", "funds_pause", "skip", "norate_pause"],
+                                 "update_ok", "unauthorized", "callback_ok", "callback_err", "funds_pause", "skip", "norate_pause",
+                                 # round 7 (scenarios/service_probe.ndjson, service_bundle.ndjson)
+                                 "probe_gone_ctx", "probe_gone_req", "cmd_on_completed", "cmd_on_oneshot", "pause_inflight",
+                                 "kill_inflight", "start_inflight", "id_lower", "id_badlen", "txfailed"],
                        gen_cfg=SERVICE_GEN_CFG, assumptions=_ASSUME),
 }
 
